@@ -5,17 +5,20 @@
 # the recorded confirmation runs use /repo itself (git -C /repo apply ..; ./check ..; git checkout).
 set -e
 patch="$1"; shift
-if [ ! -d /tmp/vseed-repo ]; then git -C /repo worktree add -q --detach /tmp/vseed-repo HEAD; fi
-git -C /tmp/vseed-repo checkout -q --detach "$(git -C /repo rev-parse HEAD)"
-git -C /tmp/vseed-repo checkout -q -- . && git -C /tmp/vseed-repo clean -fdq
-mkdir -p /tmp/vseed
-rsync -a --delete --exclude .git --exclude replays --exclude .work --exclude .locks /verif/ /tmp/vseed/
-sed -i 's#path = "/repo#path = "/tmp/vseed-repo#g' /tmp/vseed/harness/Cargo.toml
-if [ -n "$patch" ] && [ "$patch" != "-" ]; then git -C /tmp/vseed-repo apply "$patch"; fi
-cd /tmp/vseed
+# VSEED_SLOT (optional): several runs in parallel, each with its own private copies
+V=/tmp/vseed$VSEED_SLOT
+R=/tmp/vseed-repo$VSEED_SLOT
+if [ ! -d $R ]; then git -C /repo worktree add -q --detach $R HEAD; fi
+git -C $R checkout -q --detach "$(git -C /repo rev-parse HEAD)"
+git -C $R checkout -q -- . && git -C $R clean -fdq
+mkdir -p $V
+rsync -a --delete --exclude .git --exclude replays --exclude .work --exclude .locks /verif/ $V/
+sed -i "s#path = \"/repo#path = \"$R#g" $V/harness/Cargo.toml
+if [ -n "$patch" ] && [ "$patch" != "-" ]; then git -C $R apply "$patch"; fi
+cd $V
 rc=0
 for p in "$@"; do
-  EG_REPO=/tmp/vseed-repo ./check "$p" --tier quick || rc=1
+  EG_REPO=$R ./check "$p" --tier quick || rc=1
 done
-git -C /tmp/vseed-repo checkout -q -- .
+git -C $R checkout -q -- .
 exit $rc
